@@ -26,7 +26,9 @@ MANIFEST = dict(
          "(route, method); the recorded list is proved exact). The privilege model is validated against the real functions, and "
          "the guard table against the real console (restricted users of 12 privilege classes vs admin, every exercised data "
          "endpoint x namespace spelling): observed allow/deny must equal the model's verdict, and the property oracle classifies "
-         "every request served outside the permitted namespaces.",
+         "every request served outside the permitted namespaces.  The console namespace listing (is_all shortcut or per-entry "
+         "filter) is modelled as namespace_list and proved to name exactly the permitted namespaces that exist; every observed "
+         "listing is judged by the ids it lists and compared entry by entry with the model.",
     note="35 console data endpoints apply no namespace privilege (MCP server/toolspec, the v1 routes that re-use the OpenAPI "
          "handlers, v1 config history and download-by-keys, the MCP downloads, the transfer export/import): too many call sites for a "
          "small repair; recorded in known_findings.json, any other unguarded endpoint is a VIOLATION. Endpoints whose request "
